@@ -34,13 +34,23 @@ MUTANTS = [
     ("tlp-no-sign-check", POLY, "if (refine and np.any(multipliers < -tolerance)) or (not refine and np.any(multipliers > tolerance)):", "if False:", ["C04"], []),
     ("tactic4-recursion-sign", POLY, "sign = 1 if term.get_coefficient(var_to_elim) > 0 else -1", "sign = 1", ["C04"], []),
     ("tlp-assert", POLY, 'if len(indices) < num_vars_to_elim:\n            raise ValueError("Context has insufficient information")', "assert len(indices) >= num_vars_to_elim", ["C14"], []),
-    ("compose-drop-self-a", IOC, "assumptions = new_a | self.a", "assumptions = new_a", ["C01"], []),
+    ("compose-drop-self-a", IOC, "assumptions = new_a | self.a", "assumptions = new_a", ["C01", "C05"], []),
     ("compose-simplify-sides-against-each-other", IOC, "(g1, used) = g1_t.elim_vars_by_relaxing(g2_t, intvars, False, tactics_order)\n        tactics_used.append(used)\n        (g2, used) = g2_t.elim_vars_by_relaxing(g1_t, intvars, False, tactics_order)", "(g1, used) = g1_t.elim_vars_by_relaxing(g2_t, intvars, simplify, tactics_order)\n        tactics_used.append(used)\n        (g2, used) = g2_t.elim_vars_by_relaxing(g1_t, intvars, simplify, tactics_order)", ["C15"], ["C01"]),
     ("merge-drops-other-guarantees", IOC, "guarantees = self.g | other.g", "guarantees = self.g", ["C08", "C15"], []),
     ("merge-assumptions-intersection", IOC, "assumptions = self.a | other.a\n        guarantees", "assumptions = self.a & other.a\n        guarantees", ["C08"], []),
     ("refines-no-tolerance", POLY, 'if -res["fun"] <= b_temp + LP_ROUNDOFF_TOLERANCE:', 'if -res["fun"] <= b_temp:', ["C03"], []),
     ("refines-ignores-last-row", POLY, "for i in range(n_r):\n            constraint = a_r[[i], :]", "for i in range(n_r - 1):\n            constraint = a_r[[i], :]", ["C03"], []),
-    ("quotient-always-extends", IOC, "if assumptions.refines(other.a):", "if True:", ["C02"], []),
+    ("quotient-always-extends", IOC, "if assumptions.refines(other.a):", "if True:", ["C02", "C05"], []),
+    ("quotient-guarantees-skip-divisor-assumptions", IOC, "        guarantees = guarantees | other.a\n", "        guarantees = guarantees | type(guarantees)([])\n", ["C05", "C02"], []),
+    ("compose-relax-with-wrong-operand", IOC, "(g2, used) = g2_t.elim_vars_by_relaxing(g1_t, intvars, False, tactics_order)", "(g2, used) = g1_t.elim_vars_by_relaxing(g2_t, intvars, False, tactics_order)", ["C15"], ["C05"]),
+    ("compose-accepts-shared-outputs", IOC, "        return len(list_intersection(self.outputvars, other.outputvars)) == 0", "        return True", ["C06"], []),
+    ("quotient-skips-additional-input-check", IOC, "if list_diff(additional_inputs, list_union(other.outputvars, self.inputvars)):", "if False:", ["C06"], []),
+    ("compose-forgets-kept-outputs", IOC, "        outputvars = list_union(outputvars, vars_to_keep)\n", "", ["C06"], []),
+    ("compose-keep-check-one-sided", IOC, "conflict_vars = list_diff(vars_to_keep, list_union(self.outputvars, other.outputvars))", "conflict_vars = list_diff(vars_to_keep, list_union(self.outputvars, other.outputvars + other.inputvars))", ["C06"], []),
+    ("quotient-output-rule", IOC, "list_diff(self.outputvars, other.outputvars), list_diff(other.inputvars, self.inputvars)\n        )\n        inputvars", "list_diff(self.outputvars, other.outputvars), list_diff(other.inputvars, self.outputvars)\n        )\n        inputvars", ["C06"], []),
+    ("feedback-check-dropped", IOC, "if cycle_present and (other_drives_const_inputs or self_drives_const_inputs):", "if cycle_present and (other_drives_const_inputs and self_drives_const_inputs):", ["C06"], []),
+    ("ctor-skips-guarantee-vars-check", IOC, "        if list_diff(guarantees.vars, list_union(input_vars, output_vars)):\n            raise IncompatibleArgsError(", "        if False:\n            raise IncompatibleArgsError(", ["C06"], []),
+    ("rename-keeps-duplicate-input", IOC, "                else:\n                    inputvars.remove(source_var)", "                else:\n                    inputvars[inputvars.index(source_var)] = target_var", ["C06"], []),
     ("eq-outputvars-self", IOC, "and self.outputvars == other.outputvars", "and self.outputvars == self.outputvars", ["C19"], []),
     ("term-self-rename", POLY, "if source_var in self.vars and source_var != target_var:", "if source_var in self.vars:", ["C16"], []),
     ("rename-keeps-source-coefficient", POLY, "new_term.variables[target_var] += new_term.variables[source_var]", "new_term.variables[target_var] = new_term.variables[source_var]", ["C16"], []),
